@@ -86,6 +86,7 @@ type Conn struct {
 	SerialMode        bool                 // serial port semantics: own timeout, min read cost
 	PortTimeout       time.Duration
 	TOStyle           TimeoutStyle
+	ZeroNilPoll       time.Duration // network connections: >0 = non-blocking reads that return (0, nil) after this long when nothing has arrived; read deadlines are ignored
 	MinReadCost       time.Duration
 	Endless           bool // once armed (ArmEndless) the receive direction never runs dry
 	endlessArmed      bool
@@ -299,13 +300,18 @@ func (c *Conn) Read(p []byte) (int, error) {
 			deadline = c.rdl // a port that offers read deadlines honours the nearer one
 		}
 	}
+	if !c.SerialMode && c.ZeroNilPoll > 0 {
+		// a non-blocking connection wrapper: a read returns at once with what there is - nothing, and no error, when
+		// nothing has arrived (each such poll costs a little time); its deadlines are no-ops
+		deadline = time.Now().Add(c.ZeroNilPoll)
+	}
 	var minAt time.Time
 	if c.MinReadCost > 0 {
 		minAt = time.Now().Add(c.MinReadCost)
 	}
 	// a network connection whose read deadline has already passed when Read is called fails at once, whether or not
 	// bytes are waiting (net.TCPConn and net.Pipe both look at the deadline first)
-	expired := !c.SerialMode && !deadline.IsZero() && !time.Now().Before(deadline)
+	expired := !c.SerialMode && c.ZeroNilPoll == 0 && !deadline.IsZero() && !time.Now().Before(deadline)
 	r := s.ParkL("rd:"+c.Name, "read", c.locker(), func(now time.Time) (bool, Reason, time.Time) {
 		if expired && !c.closed {
 			return true, Timeout, time.Time{}
@@ -358,6 +364,8 @@ func (c *Conn) Read(p []byte) (int, error) {
 		// timeout
 		var err error
 		switch {
+		case !c.SerialMode && c.ZeroNilPoll > 0:
+			err = nil
 		case c.TimeoutErr != nil && (!c.SerialMode || c.TOStyle == TimeoutDeadline):
 			err = c.TimeoutErr
 		case !c.SerialMode || c.TOStyle == TimeoutDeadline:
